@@ -23,7 +23,8 @@ EXPECTED_PROBES = ['tunnel_up', 'tunnel_refused_status', 'other_2xx_status',
                    'unterminated_reply', 'reply_stalled_30s', 'oversize_reply',
                    'empty_reply', 'fault_during_tunnel', 'direct_no_entry',
                    'https_proxy', 'wss_through_proxy', 'proxy_from_environ',
-                   'one_byte_reply', 'credentials']
+                   'one_byte_reply', 'credentials',
+                   'threaded_send_during_tunnel']
 ASSUMPTIONS = ['the Proxy-Authorization header line itself is not judged '
                '(the property speaks about the CONNECT target and ordering)']
 
@@ -32,10 +33,107 @@ REPLIES = ['ok', 'ok', 'ok', 'ok', 'status', 'status', 'other_2xx', 'garbage',
 
 
 def plan(tier):
-    return [('seeded', 5000 if tier == 'quick' else 200000)]
+    return [('seeded', 5000 if tier == 'quick' else 200000),
+            ('threaded', 600 if tier == 'quick' else 40000)]
+
+
+def _threaded_case(rng):
+    """ThreadSim: application threads try to send while the event-loop
+    thread is still negotiating the tunnel with the proxy."""
+    reply = rng.choice(['ok', 'ok', 'status', 'unterminated_eof', 'other_2xx'])
+    ops = [{'op': 'send_text', 'text': 'T1-early'},
+           {'op': 'send_ping', 'hex': b'T1-ping'.hex()},
+           {'op': 'send_binary', 'hex': b'T1-bin'.hex()}]
+    prog = [ops[rng.randrange(3)] for _ in range(rng.choice([1, 2, 3]))]
+    return {'threaded': True, 'reply': reply, 'status': 407,
+            'reason': 'Connection established', 'extra_headers': 1,
+            'seg': rng.choice(['one', 'bytes', 'cuts']),
+            'cut_seed': rng.getrandbits(32), 'gap': rng.choice([0, 1000]),
+            'url': rng.choice(['ws://target.test/chat',
+                               'ws://target.test:9001/']),
+            'proxy_url': 'http://proxy.test:3128', 'mapping': 'matching',
+            'other_url': 'http://wrong-proxy.test:1', 'faults': [],
+            'threads': [prog],
+            'schedule': {'kind': 'random', 'seed': rng.getrandbits(32),
+                         'stay': rng.choice([0.6, 0.9, 0.97])}
+            if rng.random() < 0.7 else
+            {'kind': 'pct', 'seed': rng.getrandbits(32),
+             'd': rng.choice([1, 2, 3]), 'horizon': rng.choice([200, 600])}}
+
+
+def _execute_threaded(case):
+    from .. import threadsim
+    res = Result()
+    sc, info = build(case)
+    sc['threads'] = case['threads']
+    sc['schedule'] = case['schedule']
+    sc['start_at'] = {'name': 'connecting'}
+    sc['max_steps'] = 60000
+    sc.pop('observe_release', None)
+    tr, sched = threadsim.run(sc)
+    w = tr.world
+    res.stats.update(w.stats)
+    res.sim_us = w.now
+    import hashlib
+    res.digest = hashlib.sha256((tr.digest() + repr(sorted(
+        sched.switches.items()))).encode()).hexdigest()
+    if sched.error is not None:
+        raise RuntimeError('ThreadSim harness error: %r' % (sched.error,))
+    names = tr.names()
+    if tr.hang:
+        res.bad('C19/threaded/hang', tr.hang)
+    if tr.escaped:
+        res.bad('C19/threaded/escaped', '%s %s' % tr.escaped)
+    st = w.socks[0] if w.socks else None
+    res.stats['probe:threaded_send_during_tunnel'] += 1
+    if st is not None and st.out:
+        first = bytes(st.out[0][2])
+        if not first.startswith(b'CONNECT '):
+            res.bad('C19/threaded/first_write_not_connect', repr(first[:40]))
+        # the socket write is split in two steps by ThreadSim: look at byte
+        # offsets, not at write calls
+        allout = bytes(st.out_bytes)
+        req_end = allout.find(b'\r\n\r\n')
+        req_end = len(allout) if req_end < 0 else req_end + 4
+        if len(allout) > req_end:
+            pos = 0
+            seq2 = None
+            for sq, _, data in st.out:
+                pos += len(data)
+                if pos > req_end:
+                    seq2 = sq
+                    break
+            got_before = sum(n for (sq, _, n) in st.delivered if sq < seq2)
+            second = allout[req_end:]
+            if not info['reply_good']:
+                res.bad('C19/threaded/written_on_refused_tunnel',
+                        'proxy answered %s, yet %r... was written after '
+                        'CONNECT' % (case['reply'], second[:24]))
+            elif got_before < info['reply_len']:
+                res.bad('C19/threaded/written_before_tunnel_up',
+                        '%r... written after %d of %d reply bytes' % (
+                            second[:24], got_before, info['reply_len']))
+            elif not second.startswith(b'GET '):
+                # a frame of another thread between the end of the tunnel
+                # set-up and the upgrade request: odd, but the tunnel IS up,
+                # so the property is not concerned (counted only)
+                res.stats['probe:frame_between_tunnel_and_request'] += 1
+    for c in tr.tcalls:
+        if c.outcome == 'raised' and not c.exc_is_wse:
+            res.bad('C19/threaded/send_raised_' + c.exc, c.op['op'])
+    res.nontrivial = st is not None and bool(st.out)
+    res.sig = 'thr|%s|%s|%s' % (case['reply'], case['seg'], ';'.join(
+        '%d>%d' % (a, b) for a, b, _ in sched.switch_sites[:10]))
+    res.sample = {'threaded': True, 'reply': case['reply'],
+                  'threads': case['threads'], 'events': names[:8],
+                  'writes': [bytes(o[2])[:24].decode('latin-1')
+                             for o in (st.out[:3] if st else [])]}
+    return res
 
 
 def make_case(family, i, rng, tier):
+    if family == 'threaded':
+        return _threaded_case(rng)
     secure = rng.random() < 0.5
     host = rng.choice(['target.test', 'Target.Example.TEST', '10.9.8.7'])
     port = rng.choice([None, None, 80, 443, 8443, 9001])
@@ -206,6 +304,8 @@ def build(case):
 
 
 def execute(case):
+    if case.get('threaded'):
+        return _execute_threaded(case)
     res = Result()
     sc, info = build(case)
     tr = netsim.run(sc)
